@@ -87,6 +87,15 @@ def run(args) -> int:
             for perm in _it.permutations(base):
                 jobs.append(dict(logic=L['name'], premises=list(perm), conclusion=F(b_), configs=cf[:1] + cf[-3:-2],
                                  timeout_ms=2000, group_key=f"ident:{L['name']}:{json.dumps(second)}"))
+    # frame-rule dependent arguments: several access nodes pending for the symmetric / transitive / reflexive rules
+    # at once, under every configuration (valid in the logics whose frame class makes them so; whatever the verdict,
+    # it must be the same under every configuration)
+    for L in logics:
+        if not L['modal']:
+            continue
+        for a in (('a:MMLa', 'a:MMLa:Mb', 'a:MMLa:MLb', 'LLa:La') if args.tier == 'quick' else
+                  ('a:MMLa', 'a:MMLa:Mb', 'a:MMLa:Mb:Mc', 'a:MLa', 'LLa:La', 'MMa:Ma', 'a:MMLa:MLb', 'LMa:MLa')):
+            jobs.append(dict(logic=L['name'], argstr=a, configs=cf, timeout_ms=2000))
     for i, j in enumerate(jobs):
         j['id'] = i
     orders = [0, 1] if args.tier == 'quick' else [0, 1, 2, 3]
